@@ -260,7 +260,9 @@ func (d *Data) GetType() value.Type {
 
 func (d *Data) Add(content DataContent) *Data {
 	var n = *d
-	n.DataContent = append(n.DataContent, content)
+	// The capacity is limited to force a copy: the spare capacity of the
+	// original slice is shared by all data files derived from this one.
+	n.DataContent = append(d.DataContent[:len(d.DataContent):len(d.DataContent)], content)
 	return &n
 }
 
